@@ -8,7 +8,7 @@
     arbitrary — and over all inputs [a]. A vector operand is the list [tab n a off] of its
     elements in declaration order. *)
 Require Import List ZArith Lia String Bool DecimalString.
-From VekLib Require Import Ops RingOps LinAlg.
+From VekLib Require Import Ops RingOps LinAlg RedChain.
 From VekGen Require Import C02_gen.
 Import ListNotations.
 Open Scope string_scope.
@@ -194,4 +194,14 @@ Section Spec.
         (combine cmp_ops (map snd cmp_opsZ)) /\
       has (ty ++ "_partial_min_lane" ++ nat_str k) (fun p => ret p (lane_sel n k pmin Z.min)) /\
       has (ty ++ "_partial_max_lane" ++ nat_str k) (fun p => ret p (lane_sel n k pmax Z.max))) (seq 0 n)).
+
+  (** wide vectors: [reduce_partial_min/max] with lane [k] free ([a 0]) and the constants a_j = j+1 elsewhere: the
+      left-to-right reduction of lib/RedChain.v (two literals compare in Z, as the code does for literals; the free input
+      compares with a literal through the ring's comparison) *)
+  Definition lane_red (mx : bool) (n k : nat) (a : nat -> C) : list C :=
+    [spec_red C mx (map bgA (seq 0 k)) (map bgA (seq (S k) (n - S k))) (a 0)].
+  Definition C02_reduce_partial_wide_stmt : Prop := for_types wide_types (fun ty n =>
+    Forall (fun k =>
+      has (ty ++ "_reduce_partial_min_lane" ++ nat_str k) (fun p => ret p (lane_red false n k)) /\
+      has (ty ++ "_reduce_partial_max_lane" ++ nat_str k) (fun p => ret p (lane_red true n k))) (seq 0 n)).
 End Spec.
